@@ -266,7 +266,9 @@ func genClaimed(w *worker, st, pm string, emit func(*caseT)) {
 			}
 			send := func(name string, home byte, field, class, desc string, m consensus.Message) {
 				emit(&caseT{Reactor: "consensus", State: st, Peer: pm, Msg: name, Kind: "coupled", Field: "claimed(new_round_step.height)+" + field,
-					Class: hclass + "+" + class, Desc: desc + ", " + claim, Ch: home, raw: consensus.MustEncode(m), pre: pre, preCh: preCh})
+					Class: hclass + "+" + class, Desc: desc + ", " + claim, Ch: home, raw: consensus.MustEncode(m), pre: pre, preCh: preCh,
+					PreMsg: "NewRoundStep", PreField: "new_round_step.height+new_round_step.round+new_round_step.last_commit_round",
+					PreClass: hclass + "+" + varintClass(uint64(cr)) + "+" + varintClass(uint64(nrs.LastCommitRound)), PreDesc: claim[len("after "):]})
 			}
 			// the claim alone
 			send("NewRoundStep", chState, "new_round_step.round", varintClass(uint64(cr)), "a second NewRoundStep(step=6) for the claimed position",
